@@ -268,6 +268,6 @@ def main(argv) -> int:
                 chk.harness_error(f"worker failed: {err!r}")
     if chk.tier == "thorough":
         check_model(chk, "corpus/v3", corpus.v3())
-    chk.require_min("models_checked", chk.pick(100, 2000))
-    chk.require_min("constructors_checked", chk.pick(300, 6000))
+    chk.require_min("models_checked", chk.pick(100, 800))
+    chk.require_min("constructors_checked", chk.pick(300, 2500))
     return chk.finish()
